@@ -101,6 +101,7 @@ type srcReader struct {
 	off   int64
 	short bool
 	eofAt uint64
+	eofT  time.Duration
 	eof   bool
 }
 
@@ -109,6 +110,7 @@ func (r *srcReader) Read(p []byte) (int, error) {
 		if !r.eof {
 			r.eof = true
 			r.eofAt = simrt.Ev("source-eof", "")
+			r.eofT = simrt.Now()
 		}
 		return 0, io.EOF
 	}
@@ -301,6 +303,12 @@ func runUpload(t *testing.T, tape *simrt.Tape, env dst.Env) *simrt.Outcome {
 			}
 			if known && r.total != n {
 				viol("C32.total-parts", "total-parts known", "the size is known up front, yet part %d was sent with file_total_parts=%d (want %d)", r.id, r.total, n)
+			}
+			// (size%eff != 0: with an exact multiple the library learns of the end
+			// only from the read after the last part, and nothing records it)
+			if !known && src.eof && size%int64(eff) != 0 && r.beginT > src.eofT+time.Millisecond && r.total != n {
+				// (a re-send after a flood wait, typically: the count has been known for a while)
+				viol("C32.total-parts", "total-parts after-eof", "part %d was sent at %v with file_total_parts=%d although the source had ended at %v and the count %d was known", r.id, r.beginT, r.total, src.eofT, n)
 			}
 			if !known && r.id == n-1 && r.accepted && size%int64(eff) != 0 && r.total != n {
 				viol("C32.total-parts", "total-parts last", "the short last part %d was sent with file_total_parts=%d although the count %d was known when it was read", r.id, r.total, n)
